@@ -4,10 +4,19 @@ import (
 	"gonum.org/v1/gonum/floats"
 	"gonum.org/v1/gonum/stat"
 	"math"
+	"sort"
 )
 
 // Floats provides descriptive statistics on a slice of float64 values
 type Floats []float64
+
+// sorted returns an ascending copy of the slice (stat.Quantile requires sorted data)
+func (x Floats) sorted() []float64 {
+	s := make([]float64, len(x))
+	copy(s, x)
+	sort.Float64s(s)
+	return s
+}
 
 // Min returns the smallest value in the slice
 func (x Floats) Min() float64 {
@@ -52,7 +61,7 @@ func (x Floats) Median() float64 {
 	if len(x) == 0 {
 		return math.NaN()
 	}
-	return stat.Quantile(0.5, stat.Empirical, x, nil)
+	return stat.Quantile(0.5, stat.Empirical, x.sorted(), nil)
 }
 
 // Q25 is the 25% quantile
@@ -60,7 +69,7 @@ func (x Floats) Q25() float64 {
 	if len(x) == 0 {
 		return math.NaN()
 	}
-	return stat.Quantile(0.25, stat.Empirical, x, nil)
+	return stat.Quantile(0.25, stat.Empirical, x.sorted(), nil)
 }
 
 // Q75 is the 75% quantile
@@ -68,7 +77,7 @@ func (x Floats) Q75() float64 {
 	if len(x) == 0 {
 		return math.NaN()
 	}
-	return stat.Quantile(0.75, stat.Empirical, x, nil)
+	return stat.Quantile(0.75, stat.Empirical, x.sorted(), nil)
 }
 
 // Variance returns the variance of the values in the slice
